@@ -5,7 +5,8 @@
    Compiler/ParseBlocks.v + ParseBlocksInst.v (the block extractors of blocks.py) - part B, whose own
    theorems are in Props/C11b.v.  In the model every partial Python operation is an explicit
    outcome (PInternal ...), every loop is structural or fuelled; the statements below say which
-   outcomes are reachable.  The model follows /repo at 74386b3 (all F11 fixes committed).
+   outcomes are reachable.  The model follows /repo at 15f0a5b (all F11/F12/F17g-i fixes committed);
+   harness/c11.py re-checks that on every run.
 
    * `parse_total` is the property at full strength for the modelled compiler: for ALL line lists
      (ASCII, no "\n" inside a line) and ALL oracles, `parse` with the real extractors and the real
